@@ -24,6 +24,7 @@ type Prop struct {
 	Explanation string   `json:"explanation"`
 	Bounded     []string `json:"bounded"` // ids of bounded stand-ins run with this property
 	Effects     *EffectCfg `json:"effects,omitempty"`
+	Termination bool       `json:"require_termination,omitempty"` // every loop has a discharged variant or ranges over a finite collection; no static recursion
 }
 
 type Finding struct {
@@ -373,6 +374,22 @@ func runCheck(repo, root, id, tier string, seed int, mutant string, writeEvidenc
 			fmt.Printf("note: known finding %s (%s) no longer fails; it can be recorded as fixed\n", f.ID, f.Obligation)
 		}
 	}
+	// termination: each loop of the listed functions carries a variant (discharged above as #dec) or is a
+	// range loop over a slice, string or map; the listed functions do not call each other recursively
+	var termInfo map[string]any
+	if prop.Termination {
+		nLoops, nRange := 0, 0
+		for _, tv := range terminationVerdicts(env, vcs, &nLoops, &nRange) {
+			total++
+			if tv.ok {
+				discharged++
+				continue
+			}
+			path := writeReplay(tv.name, map[string]any{"reason": tv.why, "at": tv.pos})
+			violations = append(violations, violation{tv.name, path, "no-failing-input-found"})
+		}
+		termInfo = map[string]any{"loops": nLoops, "range_loops": nRange, "loops_with_discharged_variant": nLoops - nRange}
+	}
 	// effects pass (module-level frame conditions)
 	var effectInfo map[string]any
 	if prop.Effects != nil {
@@ -440,6 +457,9 @@ func runCheck(repo, root, id, tier string, seed int, mutant string, writeEvidenc
 		}
 		if effectInfo != nil {
 			cov["effects"] = effectInfo
+		}
+		if termInfo != nil {
+			cov["termination"] = termInfo
 		}
 		if boundedInfo != nil {
 			cov["bounded_standins"] = boundedInfo
